@@ -2,7 +2,7 @@
 routing in the templates, one predicate everywhere, set semantics of tag sets."""
 import ast
 
-from ..astq import conds, decision_list, facts_of, is_name, is_self_attr, literals, parse_fixture, returns_of, returns_with_conds, split_tests
+from ..astq import conds, decision_list, expand, facts_of, is_name, is_self_attr, literals, parse_fixture, returns_of, returns_with_conds, split_tests
 from ..core import AnalysisError, norm, walk_local
 from ..xform import query as Q
 from ..xform.terms import (Copy, GenericVisit, Ident, In, InList, Lib, Node, Raise, Rec, Star, SymStr, Visit, children, walk)
@@ -300,6 +300,19 @@ def run(repo, chk):
     chk.ob("R11.4", "tags._TagFactory:one-object-per-name", ok, tf_.where,
            "tag.X always returns the same Tag object (tags compare by identity)")
 
+    ev = repo.func("transform.PteraTransformer._evaluate")
+    evs = [n for n in walk_local(ev.node) if isinstance(n, ast.Call) and is_name(n.func, "eval")]
+    init_ = repo.func("transform.PteraTransformer.__init__")
+    glb_src = [norm(n.value) for n in walk_local(init_.node) if isinstance(n, ast.Assign) and len(n.targets) == 1 and norm(n.targets[0]) == "self.globals"]
+    trf_ = repo.func("transform.transform")
+    passed = [norm(k.value) for n in walk_local(trf_.node) if isinstance(n, ast.Call) and norm(n.func) == "PteraTransformer" for k in n.keywords if k.arg in glb_src]
+    ok = len(evs) == 1 and len(evs[0].args) == 3 and [norm(a) for a in evs[0].args[1:]] == ["self.globals", "self.globals"] and len(glb_src) == 1 \
+        and [expand(ast.parse(p_, mode="eval").body, trf_.node) for p_ in passed] == [f"{trf_.node.args.args[0].arg}.__globals__"]
+    chk.ob("R11.2", "_evaluate:annotations-are-evaluated-in-the-function's-own-globals", ok, ev.where,
+           f"an annotation is evaluated once, at instrumentation time, in the globals of the function being instrumented (that is where `tag` and the user's tag names live); "
+           f"eval(..., {[norm(a) for a in evs[0].args[1:]] if evs else '?'}), self.globals = {glb_src}, handed over as {passed}")
+    from .shared import routing_obligations
+    routing_obligations(repo, chk, "R11.3", "record")
     from .shared import activation_integrity_obligations
     activation_integrity_obligations(repo, chk, "R11.5", "tag probes")
     # ---------------- R11.5
